@@ -431,7 +431,8 @@ def recv_model(repo, buffered, pos, incoming):
                     return (True, chunk)
                 raise Unknown('stream operation %s%r is not modelled' % (f.attr, tuple(a)))
         return None
-    env = {'self': me, 'size': 2048, 'self.__sock': sock, 'self._buf': state['stream'], 'self._len': len(buffered)}
+    env = {'self': me, 'size': 2048, 'self.__sock': sock, 'self._buf': state['stream'], 'self._len': len(buffered),
+           'os.SEEK_SET': 0, 'os.SEEK_CUR': 1, 'os.SEEK_END': 2, 'io.SEEK_SET': 0, 'io.SEEK_CUR': 1, 'io.SEEK_END': 2}
     for k, v in _class_consts(repo.cls('ssh_socket', 'SSH_Socket')).items():
         env['self.' + k] = v
     try:
